@@ -279,6 +279,15 @@ func makeErr(f model.Fault, k model.CallKey) error {
 			es = append(es, fmt.Errorf("%w #%d in wrapped group at node %d field %s", ErrInjected, i, k.Node, k.Field))
 		}
 		return fmt.Errorf("loading batch: %w", es)
+	case "ngroup":
+		// groups inside a group: {{e0..eN-1}, {eN}, eN+1} - one entry per leaf member, N+2 in all
+		var in ggql.Errors
+		for i := 0; i < f.N; i++ {
+			in = append(in, fmt.Errorf("%w #%d in nested group at node %d field %s", ErrInjected, i, k.Node, k.Field))
+		}
+		return ggql.Errors{in,
+			ggql.Errors{fmt.Errorf("%w #%d in nested group at node %d field %s", ErrInjected, f.N, k.Node, k.Field)},
+			fmt.Errorf("%w #%d in nested group at node %d field %s", ErrInjected, f.N+1, k.Node, k.Field)}
 	case "gerror":
 		return &ggql.Error{Base: fmt.Errorf("%w (ggql.Error) at node %d field %s", ErrInjected, k.Node, k.Field),
 			Extensions: map[string]interface{}{"code": "INJECTED"}}
